@@ -109,6 +109,51 @@ impl Monitor for Mon {
                 }
             }
         }
+        // the open notional is the position's cost basis: whatever part of the position is traded away for Q quote with a realised
+        // PnL of r, the rest keeps N - Q + r (long) / N - Q - r (short), so that realised PnL over the position's life adds up to
+        // the quote received minus the quote paid; an increase adds the quote it pays
+        if let (Act::Open { t, v, .. } | Act::Close { t, v, .. }, Some(pr), true) = (s.act, self.pre_ref.clone(), s.res.ok) {
+            if let (Some(p1), Some(ups)) = (s.post.pos[*v][*t].as_ref(), pr.pnl_spot()) {
+                let q = s.pre.v[*v].state.quote_asset_reserve.u128().abs_diff(s.post.v[*v].state.quote_asset_reserve.u128());
+                let exp: Option<S> = match s.effect {
+                    Effect::Increased => Some(S::pos(pr.notional).add(&S::pos(q))),
+                    Effect::Reduced | Effect::PartialClosed => {
+                        let closed = pr.size - p1.size.value.u128();
+                        let r = ups.mul(&S::pos(closed)).div_trunc(&S::pos(pr.size));
+                        let base = S::pos(pr.notional).sub(&S::pos(q));
+                        Some(if pr.long { base.add(&r) } else { base.sub(&r) })
+                    }
+                    _ => None,
+                };
+                if let Some(exp) = exp {
+                    if exp.is_neg() {
+                        out.count("open_notional_reference_negative_unjudged");
+                    } else {
+                        out.count("open_notional_checks");
+                        if S::pos(p1.notional.u128()) != exp {
+                            return Some(
+                                Violation::new(
+                                    "open_notional_bookkeeping",
+                                    format!(
+                                        "{:?}: stored open notional {} -> {} but cost basis {} {} quote exchanged {} {} realised pnl = {}",
+                                        s.effect,
+                                        pr.notional,
+                                        p1.notional,
+                                        pr.notional,
+                                        if s.effect == Effect::Increased { "+" } else { "-" },
+                                        q,
+                                        if pr.long { "+" } else { "-" },
+                                        exp
+                                    ),
+                                )
+                                .with("effect", format!("{:?}", s.effect))
+                                .with("long", pr.long),
+                            );
+                        }
+                    }
+                }
+            }
+        }
         // a whole position closed by an order on the opposite side (exactly flat, or reversed into a new position) settles like a
         // close: the owner's wallet moves by (margin + realised PnL - funding owed) - fees - the margin of what the order leaves
         if let (Act::Open { t, v, .. }, Some(pr), true, false) = (s.act, self.pre_ref.clone(), s.res.ok, w.cfg.native) {
